@@ -25,6 +25,8 @@ RULE = (
     "sequential labels == eager result with no duplicated groups. Non-trivial = (blockwise) an old boundary strictly inside "
     "a group; (cohorts) a forced label strictly inside an old chunk."
 )
+FUZZ_TARGET = "c17"  # thorough tier: 8 atheris shards on rechunk_for_blockwise's boundary heuristic
+FUZZ_RUNS = 20000
 BUDGET = {"quick": 600, "thorough": 4000}
 ASSUMPTIONS = ["rechunk_for_blockwise's no-straddle postcondition is asserted for sequential labels only (its documented domain)"]
 
